@@ -100,7 +100,8 @@ def scenario(rng, root, idx):
         files[n] = fn
         with open(os.path.join(src, fn), 'w') as f:
             f.write(text)
-    kinds = ['healthy', 'borrow', 'broken', 'missing', 'unknown-request', 'healthy', 'two-sources', 'borrow-dep', 'borrow', 'two-sources', 'borrow-dep']
+    kinds = ['healthy', 'borrow', 'broken', 'missing', 'unknown-request', 'healthy', 'two-sources', 'borrow-dep', 'borrow', 'two-sources', 'borrow-dep',
+             'missing-base', 'borrow-flavours']
     rng.choice(kinds)                       # (kept: the draw that used to pick the kind)
     kind = kinds[idx % len(kinds)]          # every kind in every run, whatever the seed
     requested = [names[-1]] if rng.random() < 0.5 else list(names)
@@ -113,6 +114,10 @@ def scenario(rng, root, idx):
         os.remove(os.path.join(src, files[names[0]]))
     elif kind == 'unknown-request':
         requested = requested + ['ZZ-NOT-THERE-MIB']
+    elif kind == 'missing-base':
+        # a base module every SMIv2 module imports implicitly has no source: nothing is generated for base modules, but a
+        # module that is missing is missing - the report says so and the exit status is not 0
+        os.remove(os.path.join(src, 'SNMPv2-CONF'))
     sources = [src]
     if kind == 'two-sources':
         # an earlier repository holds an unparsable (or empty) copy of a module, a later one the healthy copy
@@ -133,6 +138,27 @@ def scenario(rng, root, idx):
         requested = list(names)
         if rng.random() < 0.6:
             requested.append('ZZ-NOT-THERE-MIB')
+    borrowers = [(empty, False)]
+    expect_copy = None
+    if kind == 'borrow-flavours':
+        # borrower repositories of both flavours: the one added before --generate-mib-texts holds copies without texts and is
+        # passed over by a request for texts, of the ones added after it the first that holds the module delivers
+        fmt = 'json'
+        victim = names[0]
+        os.remove(os.path.join(src, files[victim]))
+        with open(os.path.join(empty, victim + '.json'), 'w') as f:
+            f.write('{"borrowed": "%s", "from": "no-texts"}' % victim)
+        requested = list(names)
+        for k in (1, 2):
+            bt = os.path.join(d, 'bt%d' % k)
+            os.makedirs(bt)
+            borrowers.append((bt, True))
+            if rng.random() < (0.5 if k == 1 else 0.8):
+                with open(os.path.join(bt, victim + '.json'), 'w') as f:
+                    f.write('{"borrowed": "%s", "from": "texts-%d"}' % (victim, k))
+                expect_copy = expect_copy or (victim, '{"borrowed": "%s", "from": "texts-%d"}' % (victim, k))
+        if expect_copy is None:
+            expect_copy = (victim, None)
     expect_missing = None
     if kind == 'borrow-dep' and len(names) > 1:
         # a dependency (not requested) without source that only the borrower repository holds, dependencies not being
@@ -167,9 +193,15 @@ def scenario(rng, root, idx):
         opts = [o for o in opts if o not in ('--ignore-errors', '--dry-run', '--no-mib-writes', '--generate-mib-texts')]
     if fmt == 'pysnmp' and rng.random() < 0.5:
         opts.append('--no-python-compile')
-    args = [MIBDUMP] + ['--mib-source=file://' + x for x in sources] + ['--mib-borrower=file://' + empty, '--destination-format=' + fmt,
+    bargs = ['--mib-borrower=file://' + empty]
+    if kind == 'borrow-flavours':
+        opts = [o for o in opts if o != '--generate-mib-texts']
+        bargs += ['--generate-mib-texts'] + ['--mib-borrower=file://' + b for b, _ in borrowers[1:]]
+    args = [MIBDUMP] + ['--mib-source=file://' + x for x in sources] + bargs + ['--destination-format=' + fmt,
             '--destination-directory=' + dst] + opts + requested
-    return {'dir': d, 'src': src, 'sources': sources, 'dst': dst, 'empty': empty, 'format': fmt, 'opts': opts, 'requested': requested, 'kind': kind, 'args': args,
+    if kind == 'borrow-flavours':
+        opts = opts + ['--generate-mib-texts']
+    return {'borrowers': borrowers, 'expect_copy': expect_copy, 'dir': d, 'src': src, 'sources': sources, 'dst': dst, 'empty': empty, 'format': fmt, 'opts': opts, 'requested': requested, 'kind': kind, 'args': args,
             'names': names, 'expect_missing': expect_missing}
 
 
@@ -196,6 +228,18 @@ def mibdump_failures(sc, rc, err, inp):
         out.append({'key': 'dependency-not-reported', 'what': 'with --no-dependencies the imported module %s has no source and is not '
                     'borrowed, yet it is reported neither missing nor failed: %s' % (sc['expect_missing'], {k: v for k, v in cats.items() if v}),
                     'input': inp})
+    if sc.get('expect_copy'):
+        victim, copy = sc['expect_copy']
+        if copy is None:
+            if victim not in cats['missing'] + [x.split(' ')[0] for x in cats['failed']]:
+                out.append({'key': 'borrower-flavour', 'what': '%s has no source and no borrower of the requested flavour holds it, yet it is reported neither missing nor failed: %s' % (
+                    victim, {k: v for k, v in cats.items() if v}), 'input': inp})
+        elif '--dry-run' not in sc['opts'] and '--no-mib-writes' not in sc['opts'] and not ((cats['missing'] or cats['failed']) and '--ignore-errors' not in sc['opts']):
+            p = os.path.join(sc['dst'], victim + '.json')
+            got = open(p).read() if os.path.exists(p) else None
+            if victim not in cats['borrowed'] or got != copy:
+                out.append({'key': 'borrower-flavour', 'what': '%s is to be borrowed from the first repository added under --generate-mib-texts that holds it (%s); reported borrowed: %s, destination holds %r' % (
+                    victim, copy, cats['borrowed'], got), 'input': inp})
     bad = (cats['missing'] or cats['failed'])
     if (rc == 0) != (not bad):
         out.append({'key': 'exit-code', 'what': 'exit status %d with missing=%s failed=%s' % (rc, cats['missing'], cats['failed']), 'input': inp})
@@ -227,20 +271,21 @@ def library_statuses(sc):
     dst = sc['dst'] + '-lib'
     os.makedirs(dst, exist_ok=True)
     fmt, opts = sc['format'], sc['opts']
-    breaders = getReadersFromUrls('file://' + sc['empty'], **dict(lowcaseMatching=False))
+    bl = sc.get('borrowers') or [(sc['empty'], False)]
+    breaders = [(getReadersFromUrls('file://' + b, **dict(lowcaseMatching=False))[0], fl) for b, fl in bl]
     if fmt == 'pysnmp':
-        borrowers = [PyFileBorrower(r, genTexts=False) for r in breaders]
+        borrowers = [PyFileBorrower(r, genTexts=fl) for r, fl in breaders]
         searchers = [PyFileSearcher(dst)] + [PyPackageSearcher(x) for x in PySnmpCodeGen.defaultMibPackages]
         searchers.append(StubSearcher(*[x for x in PySnmpCodeGen.baseMibs if x not in PySnmpCodeGen.fakeMibs]))
         cg = PySnmpCodeGen()
         wr = PyFileWriter(dst).setOptions(pyCompile='--no-python-compile' not in opts, pyOptimizationLevel=0)
     elif fmt == 'json':
-        borrowers = [AnyFileBorrower(r, genTexts=False).setOptions(exts=['.json']) for r in breaders]
+        borrowers = [AnyFileBorrower(r, genTexts=fl).setOptions(exts=['.json']) for r, fl in breaders]
         searchers = [AnyFileSearcher(dst).setOptions(exts=['.json']), StubSearcher(*JsonCodeGen.baseMibs)]
         cg = JsonCodeGen()
         wr = FileWriter(dst).setOptions(suffix='.json')
     else:
-        borrowers = [AnyFileBorrower(r, genTexts=False) for r in breaders]
+        borrowers = [AnyFileBorrower(r, genTexts=fl) for r, fl in breaders]
         searchers = [StubSearcher(*NullCodeGen.baseMibs)]
         cg = NullCodeGen()
         wr = CallbackWriter(lambda *x: None)
@@ -420,7 +465,7 @@ def run(ctx):
                 'non-trivial = more than one module or source')
     root = common.scratch_dir('c20-')
     try:
-        n = 36 if ctx.tier == 'quick' else 300
+        n = 39 if ctx.tier == 'quick' else 300
         scs = [dict(scenario(random.Random(ctx.seed * 1000 + 20000 + i), root, i), regen=[ctx.seed * 1000 + 20000 + i, i]) for i in range(n)]
         with ThreadPoolExecutor(max_workers=12) as ex:
             outs = list(ex.map(lambda sc: run_cmd(sc['args']), scs))
